@@ -1,9 +1,16 @@
 import Driver.Common
 import AranyaV.Model.Afc
+import AranyaV.Model.AfcE2e
 /-! Driver for the AFC data-path model (C39).  The ideal AEAD's output bytes are the `oracle`
 field of the seal requests (the bytes the real cipher produced); `open_in_place` is the code
 after the F3 fix (`openIP true`). -/
 open AranyaV.Afc AranyaV.Gen.Afc
+
+/-- driver state: the world and, per channel handle of the harness, the world index of its seal
+end and of its open end (they differ when the two ends derived different keys) -/
+structure St where
+  w : World := {}
+  ends : List (Nat × Nat) := []
 
 def fill : UInt8 := 0xA5
 
@@ -21,7 +28,7 @@ def bufState (before after : List UInt8) : String :=
 
 def tailState (t : List UInt8) : String := if t.all (· == fill) then "tail" else "tail-touched"
 
-def step (w : World) (toks : List String) : World × String :=
+def stepW (w : World) (toks : List String) : World × String :=
   match toks with
   | ["new"] => ({}, "ok")
   | ["consts"] =>
@@ -82,4 +89,54 @@ def step (w : World) (toks : List String) : World × String :=
     | none => (w, "bad-op")
   | _ => (w, "bad-op")
 
-def main : IO Unit := Driver.run step {}
+
+def sealEnd (st : St) (c : Nat) : Option Nat := (st.ends[c]?).map (·.1)
+def openEnd (st : St) (c : Nat) : Option Nat := (st.ends[c]?).map (·.2)
+
+def step (st : St) (toks : List String) : St × String :=
+  match toks with
+  | ["new"] => ({}, "ok")
+  | ["chan", sl, ol, _seed, start] => match sl.toNat?, ol.toNat?, start.toNat? with
+    | some sl, some ol, some start =>
+      let n := st.w.chans.length
+      ({ w := st.w.addChan sl ol start, ends := st.ends ++ [(n, n)] }, s!"ok {st.ends.length}")
+    | _, _, _ => (st, "bad-op")
+  | ["dchan", sl, ol, _seed, start, v] =>
+    match sl.toNat?, ol.toNat?, start.toNat?, AranyaV.AfcE2e.Variant.parse v with
+    | some sl, some ol, some start, some v =>
+      match AranyaV.AfcE2e.derive sl ol v with
+      | some (ks, kr) =>
+        let (w', a, b) := AranyaV.AfcE2e.addEnds st.w ks kr sl ol start
+        ({ w := w', ends := st.ends ++ [(a, b)] }, s!"ok {st.ends.length}")
+      | none => (st, "err Derive")
+    | _, _, _, _ => (st, "bad-op")
+  | ["rm", c] => match c.toNat? with
+    | some c => match st.ends[c]? with
+      | some (a, b) => ({ st with w := (st.w.rmChan a).rmChan b }, "ok")
+      | none => (st, "err NotFound")
+    | none => (st, "bad-op")
+  | [op, c, x, y, z] =>
+    if op == "seal" then
+      match c.toNat?.bind (sealEnd st) with
+      | some i => let (w', r) := stepW st.w [op, toString i, x, y, z]; ({ st with w := w' }, r)
+      | none => (st, if c.toNat?.isSome then "err NoChannel" else "bad-op")
+    else (st, "bad-op")
+  | [op, c, x, y] =>
+    if op == "sealip" then
+      match c.toNat?.bind (sealEnd st) with
+      | some i => let (w', r) := stepW st.w [op, toString i, x, y]; ({ st with w := w' }, r)
+      | none => (st, if c.toNat?.isSome then "err NoChannel" else "bad-op")
+    else if op == "open" then
+      match c.toNat?.bind (openEnd st) with
+      | some i => let (w', r) := stepW st.w [op, toString i, x, y]; ({ st with w := w' }, r)
+      | none => (st, if c.toNat?.isSome then "err NoChannel" else "bad-op")
+    else (st, "bad-op")
+  | [op, c, x] =>
+    if op == "openip" then
+      match c.toNat?.bind (openEnd st) with
+      | some i => let (w', r) := stepW st.w [op, toString i, x]; ({ st with w := w' }, r)
+      | none => (st, if c.toNat?.isSome then "err NoChannel" else "bad-op")
+    else (st, "bad-op")
+  | _ => let (w', r) := stepW st.w toks; ({ st with w := w' }, r)
+
+def main : IO Unit := Driver.run step ({} : St)
